@@ -7,7 +7,7 @@ use std::os::unix::ffi::OsStringExt;
 
 #[derive(Clone, Debug)]
 struct EA { id: String, short: Option<char>, vshorts: Vec<char>, long: Option<String>, vlongs: Vec<String>, hlongs: Vec<String>, kind: u8, // 0 flag 1 option 2 positional
-    num: Option<(usize, Option<usize>)>, allow_hyphen: bool, hide: bool, pvs: Option<Vec<(String, bool)>>, delim: bool }
+    num: Option<(usize, Option<usize>)>, allow_hyphen: bool, hide: bool, pvs: Option<Vec<(String, bool)>>, delim: Option<char> }
 #[derive(Clone, Debug)]
 struct EC { name: String, valiases: Vec<String>, haliases: Vec<String>, hide: bool, args: Vec<EA>, subs: Vec<EC> }
 
@@ -30,7 +30,7 @@ fn gen_ec(rng: &mut Rng, depth: usize, idx: &mut usize, name: String) -> EC {
             num: if kind == 1 { *rng.pick(&[None, None, Some((0, Some(1))), Some((2, Some(2))), Some((1, None)), Some((1, Some(3)))]) } else if kind == 2 && npos == 2 { *rng.pick(&[None, Some((1, None)), Some((1, Some(2)))]) } else { None },
             allow_hyphen: takes && rng.chance(1, 6), hide: rng.chance(1, 6),
             pvs: if takes && rng.chance(1, 3) { Some((0..1 + rng.below(3)).map(|j| (format!("{}{i}{j}", rng.pick(&["val", "va", "x"])), rng.chance(1, 5))).collect()) } else { None },
-            delim: takes && rng.chance(1, 6),
+            delim: if takes && rng.chance(1, 5) { Some(*rng.pick(&[',', ',', '\u{3001}', '\u{a7}'])) } else { None },
         });
     }
     let nsubs = if depth >= 2 { 0 } else { rng.below(4) };
@@ -66,7 +66,7 @@ fn build(c: &EC) -> Command {
         if a.allow_hyphen { x = x.allow_hyphen_values(true); }
         if a.hide { x = x.hide(true); }
         if let Some(p) = &a.pvs { x = x.value_parser(p.iter().map(|(n, h)| PossibleValue::new(n.clone()).hide(*h)).collect::<Vec<_>>()); }
-        if a.delim { x = x.value_delimiter(','); }
+        if let Some(d) = a.delim { x = x.value_delimiter(d); }
         r = r.arg(x);
     }
     for s in &c.subs { r = r.subcommand(build(s)); }
@@ -232,7 +232,12 @@ pub fn run(o: &Opts) -> Report {
             for a in &nd.args {
                 if let Some(l) = &a.long { pool.push(format!("--{l}").into_bytes()); pool.push(format!("--{l}=").into_bytes()); pool.push(format!("--{l}=va").into_bytes()); pool.push(format!("--{}", &l[..l.len() - 1]).into_bytes()); }
                 if let Some(s) = a.short { pool.push(format!("-{s}").into_bytes()); pool.push(format!("-{s}x").into_bytes()); pool.push(format!("-{s}=v").into_bytes()); let mut nb = format!("-{s}").into_bytes(); nb.push(0xff); pool.push(nb); }
-                if let Some(p) = &a.pvs { pool.push(p[0].0.as_bytes().to_vec()); pool.push(format!("{},", p[0].0).into_bytes()); }
+                if let Some(p) = &a.pvs {
+                    let d = a.delim.unwrap_or(',');
+                    pool.push(p[0].0.as_bytes().to_vec()); pool.push(format!("{}{d}", p[0].0).into_bytes()); pool.push(format!("{}{d}{}", p[0].0, &p[0].0[..1]).into_bytes());
+                    if let Some(l) = &a.long { pool.push(format!("--{l}={}{d}{}", p[0].0, &p[0].0[..1]).into_bytes()); }
+                    if let Some(s) = a.short { pool.push(format!("-{s}{}{d}{}", p[0].0, &p[0].0[..1]).into_bytes()); }
+                }
             }
         }
         for _ in 0..(if o.thorough() { 10 } else { 6 }) {
